@@ -1,3 +1,31 @@
+# C17 - address quoting and parsing agree; header recipients become the envelope.
+#
+# obligations:  smtp_roundtrip    (1) qmail-remote.c addrmangle -> "FROM:<..>"/"TO:<..>" -> qmail-smtpd.c addrparse == identity
+#               header_roundtrip  (2) quote.c quote2 -> "To:..." -> token822_parse -> token822_addrlist -> token822_unquote == identity
+#               quote_rfc822      (2) at larger N: quote2 output is an RFC 822 local part (dot-atom / quoted-string) that MEANS the input
+#               gotaddr_contract      contract of the static gotaddr() that header_roundtrip cuts
+#               addrlist_forms    (4) generator: 20 syntactic forms as token lists -> token822_addrlist + qmail-inject rwtocc/rwgeneric
+#                                     -> exactly the mailboxes known by construction (default host / domain / plus, routes, groups, ...)
+#               rewritten_stable  (3) same forms: token822_unparse output read by an RFC 822 reference reader == the rewritten token list
+#               inject_field      (5) qmail-inject doheaderfield: Bcc/Resent-Bcc/Return-Path/Content-Length never kept; which fields feed the envelope
+# measured limits (this is the weakest string bound of the suite): token822_parse on text with symbolic bytes: 4 bytes 87 s,
+#   6 bytes 7 min (1 query), 9+ bytes none; therefore (2) is split by what quote2 returned (QUOTED=1/0), with per-loop bounds, N <= 2 quick,
+#   and (3)/(4) start from token lists (concrete shapes, symbolic contents) instead of text.
+#
+# kills: (hand-made mutants of a scratch worktree, VERIF_REPO=/tmp/wt-c17-1 ./check C17 --only <obl>; each printed VIOLATION, native replay rc 1)
+#   smtp_roundtrip:   ok_gt ('>' marked ok in quote.c ok[]), ok_dquote ('"' marked ok), no_bs_escape (quote.c doit() stops escaping backslash),
+#                     parse_keep_bs (qmail-smtpd.c addrparse keeps the backslash instead of dropping it)
+#   header_roundtrip: ok_comma (',' marked ok: "a,b@h" unquoted -> two addresses), no_bs_escape, unquote_drop (token822_unquote drops the
+#                     first byte of a quoted-string)
+#   quote_rfc822:     ok_comma, no_bs_escape, no_cr_escape (CR no longer escaped inside the quotes)
+#   inject_field:     keep_bcc / keep_rbcc (the early returns for H_BCC / H_R_BCC removed), bcc_not_rcpt (Bcc no longer parsed for recipients),
+#                     hfield_case (hfield.c hmatch() no longer accepts upper case)
+#   addrlist_forms:   no_route_strip (rwroute() call removed), no_wordok_flush (token822_addrlist: missing comma no longer separates),
+#                     plus_keep (rwplus keeps the '+')
+#   rewritten_stable: unparse_noquote (quoted-strings written without quotes), needspace_off (no space between adjacent atoms),
+#                     unparse_noesc ('"' not escaped inside quoted-strings)
+#   exit 2 instead of VIOLATION: ok_lparen ('(' marked ok) on header_roundtrip runs the comment loop past its per-loop bound
+#   ("bound-too-small"); it is caught as VIOLATION by quote_rfc822.
 import os
 import re
 import subprocess
@@ -87,12 +115,22 @@ def header_unwind(p):
 
 
 def obligations(tier):
-    ns = [0, 1, 2, 3, 4, 5] if tier == "quick" else [0, 1, 2, 3, 4, 5, 6, 7]
+    obls = _obligations(tier)
+    # longest queries first (all queries of a run share one worker pool)
+    first = ["header_roundtrip", "smtp_roundtrip", "rewritten_stable"]
+    obls.sort(key=lambda o: first.index(o.name) if o.name in first else len(first))
+    for o in obls:
+        o.grid.sort(key=lambda p: -(p.get("N", 0) * 2 - p.get("QUOTED", 0)))
+    return obls
+
+
+def _obligations(tier):
+    ns = [0, 1, 2, 3, 4, 5, 6] if tier == "quick" else list(range(0, 13))
     return [
         Obl("smtp_roundtrip", "smtp_roundtrip.c",
             progs=[RenamedProg("qmail-remote.c", "remote_", need=["addrmangle"], nomain=True, cut=["temp_nomem"]),
                    Prog("qmail-smtpd.c", nomain=True, cut=["die_nomem"])],
-            repo=STR, lib=["arena_stralloc.c"],
+            repo=STR, lib=["harness/C17/arena_small.c"],
             defines={"ARENA_SLOTS": 5},
             grid=[{"N": n, "ARENA_CAP": 2 * n + 12} for n in ns] + [{"N": 0, "EMPTY": 1, "ARENA_CAP": 12}]
                  + [{"N": n, "RCPT": 1, "ARENA_CAP": 2 * n + 12} for n in (1, ns[-2])],
@@ -101,7 +139,7 @@ def obligations(tier):
                               "quote_need": p["N"] + 2, "doit": p["N"] + 2, "addrparse": 2 * p["N"] + 10,
                               "str_chr": (2 * p["N"] + 14) // 4 + 2},
             unwind_default=lambda p: 2 * p["N"] + 16,
-            backend="cadical", timeout=900,
+            backend="cadical", timeout=900 if tier == "quick" else 3000,
             functions=["qmail-remote.c:addrmangle", "quote.c:quote", "quote.c:quote_need", "quote.c:doit",
                        "qmail-smtpd.c:addrparse", "str_rchr.c", "str_chr.c", "stralloc_*.c"],
             cuts=["temp_nomem (qmail-remote.c), die_nomem (qmail-smtpd.c) -> must not be reached (allocation failure is outside the claim)"],
@@ -118,7 +156,9 @@ def obligations(tier):
             sysrename=["malloc", "realloc"],
             defines={"ARENA_SLOTS": 1},
             grid=[{"N": n, "QUOTED": qd, "ARENA_CAP": 2 * n + 12}
-                  for n in ([0, 1, 2] if tier == "quick" else [0, 1, 2, 3, 4]) for qd in (1, 0) if (n, qd) not in ((0, 0), (4, 0))],
+                  for n in ([0, 1, 2, 3] if tier == "quick" else [0, 1, 2, 3, 4, 5, 6, 7]) for qd in (1, 0)
+                  if (n, qd) != (0, 0) and not (qd == 0 and n >= 4) and not (tier == "quick" and (n, qd) == (3, 0))],
+            # (QUOTED=0 at N=3 needs 6.4 GB / 290 s, at N=4 it would exceed the 14 GB limit: thorough stops at N=3 for that case)
             unwind=header_unwind,
             unwind_default=lambda p: 2 * p["N"] + 9,
             flags=["--slice-formula"],     # measured: 5.3M -> 1.6M variables (output token list, padding, unused buffers)
@@ -151,7 +191,7 @@ def obligations(tier):
             Obl("quote_rfc822", "quote_rfc822.c",
             repo=STR, lib=["harness/C17/arena_small.c"],
             defines={"ARENA_SLOTS": 2},
-            grid=[{"N": n, "ARENA_CAP": 2 * n + 8} for n in (range(0, 7) if tier == "quick" else range(0, 10))],
+            grid=[{"N": n, "ARENA_CAP": 2 * n + 8} for n in (range(0, 8) if tier == "quick" else range(0, 13))],
             unwind=lambda p: {"strlen": p["N"] + 4, "quote_need": p["N"] + 2, "doit": p["N"] + 2, "byte_copy": (2 * p["N"] + 6) // 4 + 2,
                               "str_rchr": (p["N"] + 2) // 4 + 2},
             unwind_default=lambda p: 2 * p["N"] + 6,
@@ -183,7 +223,7 @@ def obligations(tier):
             outside=["field names written with white space before the colon (accepted by hfield.c, not described in the documents): not compared"],
             claim="doheaderfield() never keeps a Bcc, Resent-Bcc, Return-Path or Content-Length field (any case), keeps every other accepted "
                   "field exactly once (From/Message-ID unless deleted by flag), and exactly To/Cc/Bcc/Apparently-To feed hrlist, Resent-To/Cc/Bcc hrrlist",
-            expect_witnesses=lambda p: (["kept"] + (["refused"] if p["HL"] >= 2 else [])
+            expect_witnesses=lambda p: ((["kept"] if p["HL"] >= 3 else []) + (["refused"] if p["HL"] >= 2 else [])
                                         + (["bcc_deleted", "bcc_feeds_envelope"] if p["HL"] >= 5 else [])
                                         + (["from_deleted_by_flag"] if p["HL"] >= 6 else [])
                                         + (["resent_bcc_deleted", "resent_feeds_envelope"] if p["HL"] >= 12 else [])
@@ -210,4 +250,23 @@ def obligations(tier):
             claim="for each form, token822_addrlist + rwtocc put exactly the mailboxes known by construction (after default host, default "
                   "domain, plus domain, route stripping) on the header recipient list, in some order",
             expect_witnesses=["form_done"]),
+            Obl("rewritten_stable", "addrlist_forms.c",
+            progs=[Prog("qmail-inject.c", nomain=True)],
+            repo=["token822.c", "stralloc_opyb.c", "stralloc_copy.c", "stralloc_cats.c", "stralloc_catb.c", "stralloc_opys.c", "byte_copy.c"],
+            lib=["harness/C17/arena_small.c", "ideal_substdio.c"],
+            sysrename=["malloc", "realloc", "_exit"],
+            defines={"ARENA_SLOTS": 4, "ARENA_CAP": 12, "STAB": 1},
+            grid=[{"FORM": f} for f in range(1, 21)],
+            unwind={"strlen": 64, "substdio_put": 64, "reference_read": 58}, unwind_default=34,
+            backend="cadical", timeout=600,
+            functions=["token822.c:token822_unparse", "token822.c:needspace", "token822.c:token822_addrlist", "qmail-inject.c:rwtocc", "qmail-inject.c:rwgeneric"],
+            stubs=["stralloc_ready/readyplus: arena", "malloc/realloc: must not be reached (arrays pre-sized)", "_exit: must not be reached"],
+            assumes=["same generated forms as addrlist_forms (20 concrete token shapes, symbolic 1-byte atoms, quoted-string content any non-NUL byte)",
+                     "the second reading is done by an RFC 822 reference reader in the harness, not by token822_parse (which does not close on "
+                     "symbolic text beyond ~6 bytes)"],
+            outside=["agreement of token822_parse itself with RFC 822 on arbitrary text (header_roundtrip covers quoted addresses, N <= 2..4)",
+                     "lines folded at LINELEN (fields here are shorter than 80 columns)"],
+            claim="for each form, the rewritten field as written by token822_unparse is read by an RFC 822 reference reader as exactly the "
+                  "rewritten token list (types and contents; folds are LF+space), hence lists the same mailboxes",
+            expect_witnesses=["form_done", "reread"]),
     ]
